@@ -261,6 +261,25 @@ def Key.verifier (k : Key) (onCurve : Bool) : Except Err Int :=
     | none => .error .other
     | some a => if a = -8 then .ok a else if onCurve then .ok a else .error .invalidPub
 
+/-- `ParamBytes` / `ParamInt` / `ParamUint` / `ParamString` / `ParamBool` success flags for one
+    parameter (key.go:238-265): which typed accessors return ok for the stored value -/
+def paramFlags (m : GoMap) (label : GoVal) : String :=
+  match m.lookup label with
+  | none => ""
+  | some v =>
+    (match v with | .bytes _ => "B" | .bytesNil => "B" | _ => "") ++
+    (match v with
+     | .int k _ => if k.signed then "I" else ""
+     | .alg _ => "I" | .crv _ => "I" | _ => "") ++
+    (match v with
+     | .int k n => if k.signed then (if n ≥ 0 then "U" else "") else "U"
+     | .alg n => if n ≥ 0 then "U" else ""
+     | .crv n => if n ≥ 0 then "U" else ""
+     | .simple _ => "U"      -- cbor.SimpleValue is a uint8 kind
+     | _ => "") ++
+    (match v with | .str _ => "S" | _ => "") ++
+    (match v with | .bool _ => "T" | _ => "")
+
 /-! ### Go keys to COSE_Key (NewKeyFromPublic / NewKeyFromPrivate, key.go:324-364) -/
 
 def curveOfBits (bits : Nat) : Int := if bits = 256 then 1 else if bits = 384 then 2 else if bits = 521 then 3 else 0
